@@ -37,7 +37,8 @@ MANIFEST = {
              "closest observed neighbours in the span: constant/next/previous/nearest/linear spelled out on periods) and extrapolate (the "
              "AR recursion cell by cell with the lags in the documented order, history untouched) are proved on abs as well; "
              "writes of columns, fill_missing and extrapolate are also proved for arbitrary lists of distinct periods (stepped, backward, "
-             "unordered; repetitions: last write wins); op_refines_map collects the equation of every op kind; a minimal heap model "
+             "unordered; repetitions: last write wins); cells are Option Num (finite rational | +inf | -inf): only NaN is missing, IEEE corner cases "
+             "of the operators are modelled; op_refines_map collects the equation of every op kind; a minimal heap model "
              "(one buffer class per pool slot) proves by induction over op sequences that no two pool objects ever share a buffer "
              "(functional forms, copy and underlay fill their target with a fresh buffer, in-place ops touch only the receiver), tied "
              "by comparing the model's partition with the np.shares_memory partition after every op; "
@@ -59,6 +60,9 @@ ASSUMPTIONS = [
     "numpy fancy assignment with repeated positions keeps the last value (observed, modelled as such)",
     "comparison operators are observed as 0/1 series; dtype promotion of boolean data is not modelled (results are not fed back)",
     "a write that raises ends the op sequence: the partially mutated state it may leave is not modelled",
+    "infinite values: operators, comparisons, tests, neighbour fills and all structural ops are driven on them; statistics, moving "
+    "windows, linear fill and extrapolate are generated on finite data only (numpy summation order / lfilter state with infinities)",
+    "reads and writes are driven through every public spelling (set_data/get_data positional and keyword, bracket syntax, call syntax)",
     "class T: after mean/nanmean/mov_avg/linear-fill ops values are compared with tolerance 1e-9*max(1,|x|), structure exactly; "
     "the generator lets such inexact values flow only through structural operations",
 ]
